@@ -652,3 +652,61 @@ Section Tasks.
         unfold has_task in *. rewrite existsb_app in B. apply orb_false_iff in B as [B _]. exact B.
   Qed.
 End Tasks.
+
+(* ----------------------------------------- histories on one target manager *)
+
+Lemma mstep_containers fuel st op st' : mstep fuel st op = Some st' -> ms_containers st' = ms_containers st.
+Proof.
+  destruct op as [ow src|ow sel binds|t v]; cbn [mstep]; intros H.
+  - destruct (load _ _ _ _ _); inversion H; reflexivity.
+  - destruct (load _ _ _ _ _); inversion H; reflexivity.
+  - inversion H; reflexivity.
+Qed.
+
+Lemma mrun_containers fuel ops : forall st l, mrun fuel st ops = Some l ->
+  Forall (fun s => ms_containers s = ms_containers st) l.
+Proof.
+  induction ops as [|op ops IH]; intros st l H; cbn [mrun] in H.
+  - inversion H. constructor.
+  - destruct (mstep fuel st op) as [st'|] eqn:E; [|discriminate H].
+    destruct (mrun fuel st' ops) as [l'|] eqn:E'; [|discriminate H]. inversion H; subst.
+    pose proof (mstep_containers _ _ _ _ E) as C. constructor; [exact C|].
+    specialize (IH st' l' E'). rewrite C in IH. exact IH.
+Qed.
+
+(* what each operation leaves, as a function of the ORIGINAL container map *)
+Definition op_tasks (cs : list (pystr * term)) (ts : list taskdef) (op : mop) : list taskdef :=
+  match op with
+  | MLoad ow src => merge ow ts (map (subpair (ns_of cs)) src)
+  | MCopy ow sel binds => merge ow ts (map (subpair (ns_with cs binds)) sel)
+  | MAssign t v => unregister ts t ++ (match v with Some e => [(t, e)] | None => [] end)
+  end.
+
+Definition op_wf (cs : list (pystr * term)) (fuel : nat) (op : mop) : bool :=
+  match op with
+  | MLoad _ src => forallb (wf_task (ns_of cs) fuel) src
+  | MCopy _ sel binds => forallb (wf_task (ns_with cs binds) fuel) sel
+  | MAssign _ _ => true
+  end.
+
+Fixpoint spec_run (cs : list (pystr * term)) (ts : list taskdef) (ops : list mop) : list (list taskdef) :=
+  match ops with
+  | [] => []
+  | op :: r => let ts' := op_tasks cs ts op in ts' :: spec_run cs ts' r
+  end.
+
+Theorem mrun_spec cs fuel ops : forallb (op_wf cs fuel) ops = true -> forall ts,
+  mrun fuel {| ms_containers := cs; ms_tasks := ts |} ops =
+  Some (map (fun t => {| ms_containers := cs; ms_tasks := t |}) (spec_run cs ts ops)).
+Proof.
+  induction ops as [|op ops IH]; intros Hw ts; [reflexivity|].
+  cbn [forallb] in Hw. apply andb_true_iff in Hw as [Hop Hw].
+  cbn [mrun spec_run map].
+  assert (E : mstep fuel {| ms_containers := cs; ms_tasks := ts |} op =
+              Some {| ms_containers := cs; ms_tasks := op_tasks cs ts op |}).
+  { destruct op as [ow src|ow sel binds|t v]; cbn [mstep op_tasks ms_containers ms_tasks op_wf] in *.
+    - rewrite load_dump_spec by assumption. reflexivity.
+    - rewrite load_dump_spec by assumption. reflexivity.
+    - reflexivity. }
+  rewrite E, IH by assumption. reflexivity.
+Qed.
